@@ -8,5 +8,7 @@ cp /repo/Cargo.lock driver/Cargo.lock 2>/dev/null || true
 CARGO_TARGET_DIR="$PWD/target/driver" cargo build --release --offline --manifest-path driver/Cargo.toml
 if [ -d kani ]; then
   cp /repo/Cargo.lock kani/Cargo.lock 2>/dev/null || true
+  # pre-build the harness crate once (offline); the checks rebuild incrementally from /repo's tree
+  (cd kani && RUSTFLAGS="--cfg aes_force_soft" cargo kani -Z stubbing --target-dir "$PWD/../target/kani" --only-codegen >/dev/null 2>&1 || echo "kani prebuild failed (checks will retry)")
 fi
 echo "setup done"
